@@ -1,6 +1,7 @@
 // C02 harness (one source, several TUs selected by -D flags — see lib/props/c02.py `NEW_SPECS`):
 // view chains / trees over dynamic, bounded and fixed storage, every element read and the view evaluated.
 //   -DC02_STORE=0 dyn   na::ndarray_t<std::vector<int>, std::vector<size_t>>
+//   -DC02_STORE=5 dyc   na::column_major_ndarray_t<std::vector<int>, std::vector<size_t>>
 //              =1 sv    na::ndarray_t<nmtools_static_vector<int,64>, nmtools_static_vector<size_t,4>>   (bounded; args static_vector<_,8>)
 //              =2 arr   na::ndarray_t<std::array<int,C02_N>, std::array<size_t,C02_D>>                   (fixed buffer, fixed rank)
 //              =3 hyb   na::hybrid_ndarray<int,64,C02_D>
@@ -267,6 +268,10 @@ inline bool make(store_t& a, const uvec& s) {
 #elif C02_STORE == 4
 using store_t = na::fixed_ndarray<int, C02_FIXED>; using args_t = vec_args;
 inline bool make(store_t& a, const uvec& s) { return to_uvec(nm::shape(a)) == s; }
+#elif C02_STORE == 5
+// dynamic COLUMN-MAJOR array: same logical contents, buffer position through column_major_offset_t
+using store_t = na::column_major_ndarray_t<std::vector<int>, std::vector<size_t>>; using args_t = vec_args;
+inline bool make(store_t& a, const uvec& s) { return a.resize(s); }
 #endif
 } // namespace c02
 
